@@ -688,7 +688,7 @@ package server
 // (contract of updateDataset: see "the per-dataset items counter" below)
 
 //@ unit (*Dataset).StoreEntities
-//@   prop C04 C05 C19 C01 C03 C06
+//@   prop C04 C05 C19 C01 C03 C06 C11
 //@   requires [callers-hold-no-lock-above-dataset-level] forall l int :: has($held, l) ==> lockLevel(l) <= 2
 //@   requires [only-core-dataset-is-written-while-another-datasets-write-lock-is-held] forall d *Dataset :: has($held, addrOf(d.WriteLock)) ==> ds.ID == "core.Dataset" && d.ID != "core.Dataset"
 //@   requires-inv [the-id-lock-is-a-standalone-mutex] ds != nil && ds.store != nil ==> lockLevel(lockerAddr(ds.store.idmux)) == 4
@@ -699,7 +699,7 @@ package server
 //@   requires forall i int :: 0 <= i && i < len(entities) ==> entities[i] != nil
 //@   requires ds.fullSyncStarted ==> ds.fullSyncSeen != nil
 //@   ensures [C04:ack-implies-committed] result == nil && len(entities) > 0 ==> committedG && idsCommittedG
-//@   ensures [C05:lock-released] $held == old($held)
+//@   ensures [C05,C11:lock-released] $held == old($held)
 //@   frame-assumed preserves Entity.IsDeleted, Entity.ID, Dataset.store, Dataset.fullSyncStarted, Dataset.fullSyncSeen, Dataset.fullSyncID, Dataset.fullSyncLease, Dataset.ID, Dataset.InternalID, []*server.Entity, Cell.*, Store.deletedDatasets, Store.nextDatasetID, map[uint32]bool, DsManager.*
 //@   at call NewTransaction#1
 //@     ghost txnG := $result
@@ -1365,7 +1365,7 @@ package server
 //@ spec pairSnd(k int) int
 //@ axiom pairKey_injective: forall a int, b int :: pairFst(pairKey(a, b)) == a && pairSnd(pairKey(a, b)) == b
 //@ unit (*Store).GetRelatedAtTime
-//@   prop C03 C06 C07 C18
+//@   prop C03 C06 C07 C18 C12
 //@   ghost appendedFinalG bool = false
 //@   ghost pendingG bool = false
 //@   ghost curPassG bool = false
@@ -1411,17 +1411,20 @@ package server
 //@   at $1 call append#4 before
 //@     ghost appendedFinalG := true
 //@     assert [C03,C06,C07:incoming-result-passed-the-dataset-time-and-predicate-filters] !(has(pubDeleted, dsResult.DatasetID) && pubDeleted[dsResult.DatasetID]) && (len(from.Datasets) == 0 || (exists k int :: 0 <= k && k < len(from.Datasets) && from.Datasets[k] == dsResult.DatasetID)) && dsResult.Time <= from.At && (from.Predicate == 0 || from.Predicate == dsResult.PredicateID)
+// whether a scanned outgoing key "passes" is a function of the key and the query alone (dataset not deleted and in scope,
+// recorded at or before the instant, predicate asked for) - not of the path the code takes: a passing key that is skipped
+// by any early continue fails the obligation at Next#2
 //@   at $1 call Item#2
 //@     ghost curPassG := false
-//@   at $1 call Uint64#5
-//@     ghost curPG := $result
-//@     ghost curRG := encBE64(k, 26)
-//@     ghost curDG := encBE32(k, 36)
-//@     ghost curPassG := from.Predicate == 0 || from.Predicate == $result
+//@   at $1 call Key#2
+//@     ghost curPG := encBE64($result, 18)
+//@     ghost curRG := encBE64($result, 26)
+//@     ghost curDG := encBE32($result, 36)
+//@     ghost curPassG := !(has(pubDeleted, encBE32($result, 36)) && pubDeleted[encBE32($result, 36)]) && (len(from.Datasets) == 0 || (exists j int :: 0 <= j && j < len(from.Datasets) && from.Datasets[j] == encBE32($result, 36))) && encBE64($result, 10) <= from.At && (from.Predicate == 0 || from.Predicate == encBE64($result, 18))
 //@     ghost recBeforeG := has(seenIds, curPG) && has(seenIds[curPG], curRG) && has(seenIds[curPG][curRG], curDG)
 //@     ghost addBeforeG := has(added, curPG) && has(added[curPG], curRG) && added[curPG][curRG]
 //@   at $1 call Next#2 before
-//@     assert [C03:every-scanned-passing-outgoing-key-is-recorded-as-seen-or-its-relation-is-already-covered] curPassG ==> (has(added, curPG) && has(added[curPG], curRG) && added[curPG][curRG]) || (has(seenIds, curPG) && has(seenIds[curPG], curRG) && has(seenIds[curPG][curRG], curDG))
+//@     assert [C03,C12:every-scanned-passing-outgoing-key-is-recorded-as-seen-or-its-relation-is-already-covered] curPassG ==> (has(added, curPG) && has(added[curPG], curRG) && added[curPG][curRG]) || (has(seenIds, curPG) && has(seenIds[curPG], curRG) && has(seenIds[curPG][curRG], curDG))
 //@   at $1 call Equal#1 before
 //@     ghost earlierG := del != 1 ? add(earlierG, pairKey(predID, relatedID)) : earlierG
 //@   at $1 call append#5 before
